@@ -34,6 +34,28 @@ fn nlit_long(b: &[u8]) -> String {
     acc
 }
 
+/// Definitions prepended to the generated digest case files (nothing in /verif/coq changes): `LP len seed` is the
+/// number whose little-endian encoding is the `len` bytes "high byte of x_i", x_0 = seed, x_{i+1} = 5 x_i + 12345
+/// mod 2^16. coqc needs ~80 us per byte of a literal; this term costs a few ms.
+const LP_HEADER: &str = "From CC Require Import Lib.Bytes.\nFixpoint lp_bytes (n : nat) (x : N) : list N := match n with O => nil | S k => cons (N.shiftr x 8%N) (lp_bytes k (N.land (x * 5 + 12345)%N 65535%N)) end.\nDefinition LP (n seed : N) : N := le_join (lp_bytes (N.to_nat n) (N.land seed 65535%N)).";
+fn lp_fill(n: usize, seed: u16) -> Vec<u8> {
+    let mut x = seed as u32;
+    (0..n)
+        .map(|_| {
+            let b = (x >> 8) as u8;
+            x = (x * 5 + 12345) & 0xffff;
+            b
+        })
+        .collect()
+}
+/// the seed if `msg` (4 KiB or more) is such a sequence
+fn lp_seed(msg: &[u8]) -> Option<u16> {
+    if msg.len() < 4096 {
+        return None;
+    }
+    (0..256u16).map(|lo| (msg[0] as u16) << 8 | lo).find(|s| lp_fill(16, *s)[..] == msg[..16] && lp_fill(msg.len(), *s)[..] == msg[..])
+}
+
 // ---------------------------------------------------------------------------------------------
 // digests
 // ---------------------------------------------------------------------------------------------
@@ -293,6 +315,17 @@ fn gen_inputs(rng: &mut Rng, thorough: bool, streams: &str, real: u64, big_updat
             v.push(Input { size, hook: None, msg, split, stream: "long", prestream: 0, one_call: false, upto: 0 });
         }
     }
+    // B2: ONE update call with a long message (split = len: a single `update`): 8 KiB and 16 KiB + 1 per variant
+    //     (the other plain streams stop at ~4.3 KiB in quick; ~15-40 ms per 64-byte block in coqc, so no 64 KiB here
+    //     and only in the full stream, which C06 runs once; the reduced stream runs seven times). Contents: LP.
+    if streams == "all" {
+        for &size in SIZES.iter() {
+            for &len in &[8192usize, 16385] {
+                let msg = lp_fill(len, rng.below(1 << 16) as u16);
+                v.push(Input { size, hook: None, msg, split: len, stream: "one_long_update", prestream: 0, one_call: false, upto: 0 });
+            }
+        }
+    }
     // C: states entered through the hook. datalen D, buffered bytes nbuf, tail.
     //    consistent states have D = 64 k + nbuf; boundaries: 2^29 bytes (= 2^32 bits),
     //    2^32 bytes, 2^56, 2^61 (datalen * 8 leaves 64 bits: debug panics, release wraps),
@@ -460,6 +493,7 @@ fn digest_main(a: &Args) {
         }
         let empty = Hook { cv: Vec::new(), datalen: 0, buffered: Vec::new() };
         let hk = inp.hook.as_ref().unwrap_or(&empty);
+        let lp = if inp.stream == "one_long_update" { lp_seed(&inp.msg) } else { None };
         coq.push(format!(
             "JHC {} {} {} {} {} {} {} {} {} {} {} {} {} {} {}",
             inp.size,
@@ -470,7 +504,10 @@ fn digest_main(a: &Args) {
             hk.buffered.len(),
             nlit(&hk.buffered),
             inp.msg.len(),
-            nlit_long(&inp.msg),
+            match lp {
+                Some(sd) => format!("(LP {} {})", inp.msg.len(), sd),
+                None => nlit_long(&inp.msg),
+            },
             inp.split,
             o.panicked,
             nlit_u64(o.adatalen),
@@ -496,7 +533,10 @@ fn digest_main(a: &Args) {
                 ),
             },
             inp.msg.len(),
-            jstr(&hex(&inp.msg)),
+            match lp {
+                Some(sd) => jstr(&format!("byte i = x_i >> 8, x_0 = {}, x_(i+1) = (5 x_i + 12345) mod 65536; first bytes {}", sd, hex(&inp.msg[..16]))),
+                None => jstr(&hex(&inp.msg)),
+            },
             inp.split,
             jstr(if o.panicked { "panic" } else { "ok" }),
             jstr(&format!("0x{:x}", o.adatalen)),
@@ -514,7 +554,7 @@ fn digest_main(a: &Args) {
     write_shards(
         &out,
         shards,
-        "From Coq Require Import NArith List.\nFrom CC Require Import Run.Runner Run.JH.",
+        &format!("From Coq Require Import NArith List.\nFrom CC Require Import Run.Runner Run.JH.\n{}", LP_HEADER),
         "jhcase",
         &runner,
         &coq,
